@@ -23,6 +23,7 @@ import XotModel.Driver.SerTokens
 import XotModel.Driver.Accepted
 import XotModel.Driver.Fprefix
 import XotModel.Driver.Fanyorder
+import XotModel.Driver.Fanyorder2
 import XotModel.Driver.Fidx
 import XotModel.Driver.Fcreation
 import XotModel.Driver.Bytes
@@ -69,6 +70,7 @@ def dispatchAll (st : MState) (line : String) : MState × String :=
      | some (fs, idx, resp) => ({ st with forest := fs, idx := idx }, resp)
      | none => (st, "bad-request"))
   | "forest" :: "prog" :: rest => (st, (handleFanyorder st.forest rest).getD "bad-request")
+  | "forest" :: "prog2" :: rest => (st, (handleFanyorder2 st.forest rest).getD "bad-request")
   | "forest" :: "spec" :: _ | "forest" :: "specx" :: _ | "forest" :: "specp" :: _ | "forest" :: "specpx" :: _
   | "forest" :: "specpc" :: _ | "forest" :: "specpk" :: _ | "forest" :: "specpkx" :: _ =>
     let ws := (words line).drop 1
